@@ -1,16 +1,22 @@
 """Facts regenerated from /repo's SOURCE on every run (harness `facts` engine: go/parser + go/ast) and checked against the model:
 F1 (registered commands) is written to lean/RedisGoModel/Generated/Commands.lean and a `decide`d Lean theorem (Props/C04.lean) requires
-every registered command to be one the model knows; F2 (CheckTTL/lock skeleton per executor), F4 (order of the Ready arm) and F5 (raft
+every registered command to be one the model knows; F3 (index / slice / assertion / make / division sites with the minimum length the
+dominating guards guarantee, harness/sites.go) is written to Generated/Sites.lean and closed by Props/C04Sites.lean; F2 (CheckTTL/lock skeleton per executor; ALSO written to Generated/Skeletons.lean and closed by Props/FactsF2.lean), F4 (order of the Ready arm) and F5 (raft
 Config literals) are compared with the committed expectations in /verif/expectations/facts.json."""
+import collections
 import json
 import os
+import re
 
 from . import core
 
 GEN = os.path.join(core.LEAN, "RedisGoModel", "Generated", "Commands.lean")
+GEN_SKEL = os.path.join(core.LEAN, "RedisGoModel", "Generated", "Skeletons.lean")
+GEN_SITES = os.path.join(core.LEAN, "RedisGoModel", "Generated", "Sites.lean")
+SITES_PROP = os.path.join(core.LEAN, "RedisGoModel", "Props", "C04Sites.lean")
 EXPECT = os.path.join(core.VERIF, "expectations", "facts.json")
 # which properties lean on which fact
-USERS = {"F1": ["C04"], "F2": ["C05", "C06", "C13"], "F4": ["C08"], "F5": ["C15"]}
+USERS = {"F1": ["C04"], "F3": ["C04"], "F2": ["C05", "C06", "C13"], "F4": ["C08"], "F5": ["C15"]}
 _cache = {}
 
 
@@ -40,6 +46,118 @@ def write_generated(facts):
         open(GEN, "w").write(src)
 
 
+def _lstr(x):
+    return '"' + x.replace("\\", "\\\\").replace('"', '\\"') + '"'
+
+
+def _llist(rows, per=1):
+    if not rows:
+        return "[]"
+    return "[\n  " + ",\n  ".join(rows) + "]"
+
+
+def site_lists(facts):
+    """the five lists of Generated/Sites.lean, as Python data (sorted; the dynamic list carries NO line numbers)"""
+    sites = facts.get("sites") or []
+    const = sorted((s["file"], s["func"], s["line"], s["needed"], s["minlen"]) for s in sites if s["class"] == "const")
+    rel = sorted((s["file"], s["func"], s["line"], s["needed"], s["minlen"]) for s in sites if s["class"] == "rel")
+    dyn = sorted((s["file"], s["func"], s["kind"] + " " + s["text"]) for s in sites if s["class"] == "dynamic")
+    calls = sorted((c["file"], c["func"], c["line"], c["minlen"]) for c in facts.get("exec_calls") or [])
+    return const, rel, dyn, calls
+
+
+def write_sites(facts):
+    const, rel, dyn, calls = site_lists(facts)
+    q5 = lambda r: "(%s, %s, %d, %d, %d)" % (_lstr(r[0]), _lstr(r[1]), r[2], r[3], r[4])
+    src = ("/-! GENERATED on every check run from /repo's source by the harness `facts` engine (harness/sites.go) — do not edit.\n"
+           "Fact F3: the panic-capable expressions of memdb, server, resp, util, raftexample with what the dominating guards guarantee. -/\n"
+           "namespace Generated\n\n"
+           "/-- `x[c]`, `x[len(x)-k]`, `x[a:b]`, `… / len(x)` on a local `x`: (file, function, line, length the access needs, minimum `len(x)`\n"
+           "    guaranteed at that point by the guards every path to it has passed) -/\n"
+           "def constSites : List (String × String × Nat × Nat × Nat) := " + _llist([q5(r) for r in const]) + "\n\n"
+           "/-- `x[v+d]`, `x[v+d:]` … with an integer local `v ≥ -d`: (file, function, line, d+1, c) where the guards give `len(x) ≥ v + c` -/\n"
+           "def relSites : List (String × String × Nat × Nat × Nat) := " + _llist([q5(r) for r in rel]) + "\n\n"
+           "/-- what the analysis of a registered executor assumes about `len(cmd)` on entry -/\n"
+           "def executorEntryMin : Nat := %d\n\n" % int(facts.get("exec_entry_min") or 0) +
+           "/-- every call of a registered executor (through the command table or by name): (file, function, line, guaranteed `len` of the command passed) -/\n"
+           "def executorCalls : List (String × String × Nat × Nat) := " +
+           _llist(["(%s, %s, %d, %d)" % (_lstr(r[0]), _lstr(r[1]), r[2], r[3]) for r in calls]) + "\n\n"
+           "/-- sites for which no bound could be established: (file, function, kind and normalised source text) — no line numbers -/\n"
+           "def dynamicSites : List (String × String × String) := " +
+           _llist(["(%s, %s, %s)" % (_lstr(r[0]), _lstr(r[1]), _lstr(r[2])) for r in dyn]) + "\n\nend Generated\n")
+    old = open(GEN_SITES).read() if os.path.exists(GEN_SITES) else None
+    if old != src:
+        os.makedirs(os.path.dirname(GEN_SITES), exist_ok=True)
+        open(GEN_SITES, "w").write(src)
+
+
+def expected_dynamic():
+    """the reviewed list of Props/C04Sites.lean (for the diagnostics only: the verdict is Lean's `Sites.dynamic_inventory`)"""
+    try:
+        src = open(SITES_PROP).read()
+    except OSError:
+        return None
+    m = re.search(r"def expectedDynamic[^\n]*:= \[\n(.*?)\n\]|def expectedDynamic[^\n]*:= \[\n(.*?)\]\n", src, re.S)
+    if not m:
+        return None
+    body = m.group(1) or m.group(2)
+    un = lambda x: x.replace('\\"', '"').replace("\\\\", "\\")
+    return [tuple(un(g) for g in t) for t in re.findall(r'^\s*\("((?:[^"\\]|\\.)*)", "((?:[^"\\]|\\.)*)", "((?:[^"\\]|\\.)*)"\)', body, re.M)]
+
+
+def check_sites(facts):
+    """what Lean will say about Generated/Sites.lean, with the offending sites named: returns (ok, [messages], structured)"""
+    msgs, broken = [], dict(const=[], rel=[], calls=[], new_dynamic=[], gone_dynamic=[])
+    if facts.get("sites") is None:
+        return False, ["site extraction failed: %s" % facts.get("sites_error", "no sites in the extractor's output")], broken
+    for s in facts["sites"]:
+        if s["class"] in ("const", "rel") and s["needed"] > s["minlen"]:
+            broken[s["class"]].append(s)
+            msgs.append("%s %s line %d: `%s` needs %s%d element(s), the guards before it guarantee only %d (Sites.%s_sites_safe)" % (
+                s["file"], s["func"], s["line"], s["text"], (s.get("base", "") + "+") if s["class"] == "rel" else "", s["needed"], s["minlen"], s["class"]))
+    emin = int(facts.get("exec_entry_min") or 0)
+    for c in facts.get("exec_calls") or []:
+        if c["minlen"] < emin:
+            broken["calls"].append(c)
+            msgs.append("%s %s line %d: `%s` may pass a command shorter than %d word(s) to an executor (Sites.executor_entry_safe)" % (
+                c["file"], c["func"], c["line"], c["text"], emin))
+    exp = expected_dynamic()
+    if exp is not None:
+        have = collections.Counter(site_lists(facts)[2])
+        want = collections.Counter(exp)
+        byrow = collections.defaultdict(list)
+        for s in facts["sites"]:
+            if s["class"] == "dynamic":
+                byrow[(s["file"], s["func"], s["kind"] + " " + s["text"])].append(s)
+        for row, n in sorted((have - want).items()):
+            lines = [str(x["line"]) for x in byrow.get(row, [])]
+            broken["new_dynamic"].append(dict(file=row[0], func=row[1], text=row[2], lines=lines))
+            msgs.append("%s %s (line %s): `%s` has no length guard the extractor can establish and is not in the reviewed inventory "
+                        "(Sites.dynamic_inventory)" % (row[0], row[1], "/".join(lines), row[2]))
+        for row, n in sorted((want - have).items()):
+            broken["gone_dynamic"].append(dict(file=row[0], func=row[1], text=row[2]))
+            msgs.append("%s %s: reviewed site `%s` is no longer in the source (Sites.dynamic_inventory; remove it from expectedDynamic)" % row)
+    return not msgs, msgs, broken
+
+
+def skeleton_rows(facts):
+    """fact F2 keyed by command name: (command, executor, tokens)"""
+    sk = facts.get("skeletons") or {}
+    return sorted((name, fn, sk.get(fn) or []) for name, fn in (facts.get("commands") or {}).items())
+
+
+def write_skeletons(facts):
+    rows = ["(%s, %s, [%s])" % (_lstr(n), _lstr(fn), ", ".join(_lstr(t) for t in toks)) for n, fn, toks in skeleton_rows(facts)]
+    src = ("/-! GENERATED on every check run from /repo/memdb/*.go by the harness `facts` engine — do not edit.\n"
+           "Fact F2: per registered command, its executor and the syntactic order of the CheckTTL / locks.* calls in the executor's body\n"
+           "(TTL, L/U, RL/RU, LM/UM, RLM/RUM, `defer:` prefix for deferred releases, `loop{` where a for/range statement starts). -/\n"
+           "namespace Generated\n\ndef skeletons : List (String × String × List String) := " + _llist(rows) + "\n\nend Generated\n")
+    old = open(GEN_SKEL).read() if os.path.exists(GEN_SKEL) else None
+    if old != src:
+        os.makedirs(os.path.dirname(GEN_SKEL), exist_ok=True)
+        open(GEN_SKEL, "w").write(src)
+
+
 def regenerate(R):
     """returns (ok, detail); registers one obligation per fact this property uses"""
     facts = extract()
@@ -47,6 +165,8 @@ def regenerate(R):
         R.oblige("facts extracted from the source (go/ast)", "facts", False, "extractor failed")
         return False, "extractor failed"
     write_generated(facts)
+    write_sites(facts)
+    write_skeletons(facts)
     exp = json.load(open(EXPECT)) if os.path.exists(EXPECT) else {}
     diffs = {}
     sk, esk = facts.get("skeletons", {}), exp.get("skeletons", {})
@@ -61,11 +181,25 @@ def regenerate(R):
         diffs["F5"] = bad5
     ok = True
     R.facts_broken = []
+    if R.prop in USERS["F3"]:
+        good, msgs, broken = check_sites(facts)
+        const, rel, dyn, calls = site_lists(facts)
+        R.oblige("fact F3: %d constant-bound + %d variable-offset index/slice/division sites lie within the length their dominating guards guarantee, "
+                 "%d executor calls pass a non-empty command, %d unguarded sites equal the reviewed inventory (regenerated into Generated/Sites.lean; "
+                 "closed in Lean by Props/C04Sites)" % (len(const), len(rel), len(calls), len(dyn)), "facts", good, "; ".join(msgs)[:900])
+        R.extra["sites"] = dict(const=len(const), rel=len(rel), dynamic=len(dyn), executor_calls=len(calls),
+                                by_kind=dict(collections.Counter(s["kind"] + "/" + s["class"] for s in facts.get("sites") or [])))
+        if not good:
+            ok = False
+            R.facts_broken.append(("F3", msgs))
+            diffs["F3"] = msgs
+            R.sites_broken = broken
     for fid, props in USERS.items():
-        if R.prop not in props or fid == "F1":
+        if R.prop not in props or fid in ("F1", "F3"):
             continue
         good = fid not in diffs
-        what = {"F2": "CheckTTL / lock-call skeleton of every registered executor equals the recorded one (%d executors)" % len(sk),
+        what = {"F2": "CheckTTL / lock-call skeleton of every registered executor equals the recorded one (%d executors; also closed in Lean: "
+                      "Generated/Skeletons.lean = Expect.skeletons, every acquire released, no CheckTTL under a held stripe — Props/FactsF2)" % len(sk),
                 "F4": "order of the calls in serveChannels' Ready arm equals the recorded one (persist before send/publish)",
                 "F5": "raft.Config literal of startRaft equals the recorded one (no PreVote/CheckQuorum)"}[fid]
         R.oblige("fact %s: %s" % (fid, what), "facts", good, "; ".join(diffs.get(fid, []))[:600])
